@@ -9,15 +9,21 @@ allow exact inlining are left as calls (the CFG-based analyses inline them on th
 as opaque callees).
 
 Exactness conditions (checked per call site, otherwise the site is left alone):
-  * the callee is a single-definition private function: `self._h(...)` inside the defining class, or `_h(...)` in the
-    defining module; not a generator, not decorated (staticmethod allowed), no nested def / lambda / global / nonlocal,
-    not recursive, no *args / **kwargs on either side, unsupplied parameters have constant defaults;
-  * statement forms `self._h(..)`, `t = self._h(..)`, `return self._h(..)`: the callee's `return`s must be compatible with
-    the form (tail position: any; assignment: exactly one `return e` as the last statement; expression statement: no
-    value-returning `return` except the last statement);
-  * expression form (anywhere else): the callee is a single `return e` and every argument is a name or a constant;
-  * callee locals are renamed apart unless provably free of clashes; a local that is returned into the identically
-    named target keeps its name unless the caller reads it in a handler / finally enclosing the call.
+  * the callee is a private function with one definition the call can reach: `self._h(...)` / `Cls._h(...)` inside the
+    defining class (and not overridden in a related class), or `_h(...)` in the defining module; not a generator, not
+    decorated (staticmethod allowed), no global / nonlocal / walrus, not recursive, no *args / **kwargs on either side,
+    unsupplied parameters have constant defaults; nested defs / lambdas only if they do not rebind a renamed name;
+  * statement forms `self._h(..)`, `t = self._h(..)`, `return self._h(..)`; a call nested in the expression of a simple
+    statement is first hoisted into `tmp = self._h(..)` when everything evaluated before it is a plain name / constant /
+    attribute load (so the order of effects is unchanged);
+  * `return`s of the callee are removed structurally (continuation passed into `if` branches, `try ... else`, tail of
+    `with`); a `return` inside a loop, a `finally`, or a non-tail `with` / `try` makes the site non-inlinable;
+  * expression form (comprehensions, lambdas, loop tests): the callee is a single `return e` (after forwarding of
+    single-use locals) and every argument is a name or a constant;
+  * callee locals are renamed apart unless provably free of clashes; name / constant arguments of parameters that the
+    callee never rebinds are substituted directly; a local that is returned into the identically named target keeps
+    its name unless the caller reads it in a handler / finally enclosing the call.
+Formatting a value (f-string field, str.format argument) is assumed not to change analysed state.
 """
 import ast
 import copy
@@ -25,8 +31,12 @@ import json
 import os
 
 HERE = os.path.dirname(os.path.abspath(__file__))
-_FORBIDDEN = (ast.Yield, ast.YieldFrom, ast.Await, ast.FunctionDef, ast.AsyncFunctionDef, ast.Lambda, ast.Global, ast.Nonlocal,
-              ast.ClassDef, ast.NamedExpr)
+_FORBIDDEN = (ast.Yield, ast.YieldFrom, ast.Await, ast.AsyncFunctionDef, ast.Global, ast.Nonlocal, ast.ClassDef, ast.NamedExpr)
+_NESTED = (ast.FunctionDef, ast.Lambda)
+
+
+class Unstructurable(Exception):
+    pass
 
 
 def pinned_names():
@@ -38,6 +48,23 @@ def _docless(body):
     if body and isinstance(body[0], ast.Expr) and isinstance(body[0].value, ast.Constant) and isinstance(body[0].value.value, str):
         return body[1:]
     return body
+
+
+def _walk_own(node):
+    """walk without entering nested function bodies (their returns / names are their own)"""
+    stack = [node]
+    while stack:
+        n = stack.pop()
+        yield n
+        for ch in ast.iter_child_nodes(n):
+            if isinstance(ch, _NESTED):
+                yield ch          # the def itself is visited, not its inside
+                continue
+            stack.append(ch)
+
+
+def _has_return(s):
+    return any(isinstance(n, ast.Return) for n in _walk_own(s))
 
 
 def _terminates(stmts):
@@ -56,6 +83,88 @@ def _terminates(stmts):
     if isinstance(s, ast.With):
         return _terminates(s.body)
     return False
+
+
+def _pure(e):
+    """evaluation has no effect on analysed state and cannot fail in a way the caller distinguishes"""
+    return e is None or all(isinstance(n, (ast.Name, ast.Constant, ast.Load, ast.Tuple, ast.List)) for n in ast.walk(e))
+
+
+def _negate(test):
+    if isinstance(test, ast.UnaryOp) and isinstance(test.op, ast.Not):
+        return test.operand
+    if isinstance(test, ast.Compare) and len(test.ops) == 1:
+        inv = {ast.Is: ast.IsNot, ast.IsNot: ast.Is, ast.In: ast.NotIn, ast.NotIn: ast.In}
+        for a, b in inv.items():
+            if isinstance(test.ops[0], a):
+                return ast.copy_location(ast.Compare(left=test.left, ops=[b()], comparators=test.comparators), test)
+    return ast.copy_location(ast.UnaryOp(op=ast.Not(), operand=test), test)
+
+
+def _same(a, b):
+    return ast.dump(a) == ast.dump(b)
+
+
+def structure(stmts, cont, k):
+    """stmts with every `return v` replaced by k(v) and the code that must not run after it moved out of its way;
+    cont = (already structured) statements to run when stmts fall through"""
+    if not stmts:
+        return [copy.deepcopy(c) for c in cont]
+    s, rest = stmts[0], stmts[1:]
+    if isinstance(s, ast.Return):
+        return k(s.value, s)
+    if not _has_return(s):
+        return [s] + structure(rest, cont, k)
+    after = structure(rest, cont, k)
+    if isinstance(s, ast.If):
+        bt, et = _terminates(s.body), _terminates(s.orelse)
+        if bt and et:
+            body, orelse = structure(s.body, [], k), structure(s.orelse, [], k)
+        elif bt:
+            body, orelse = structure(s.body, [], k), structure(s.orelse, after, k)
+        elif et:
+            body, orelse = structure(s.body, after, k), structure(s.orelse, [], k)
+        else:
+            body, orelse = structure(s.body, after, k), structure(s.orelse, after, k)
+        test = s.test
+        if not body and orelse:
+            test, body, orelse = _negate(test), orelse, []
+        if not body:
+            body = [ast.copy_location(ast.Pass(), s)]
+        # both branches one assignment to the same target / one return: conditional expression
+        if len(body) == 1 and len(orelse) == 1:
+            a, b = body[0], orelse[0]
+            if isinstance(a, ast.Assign) and isinstance(b, ast.Assign) and len(a.targets) == 1 and len(b.targets) == 1 and _same(a.targets[0], b.targets[0]):
+                return [ast.copy_location(ast.Assign(targets=a.targets, value=ast.IfExp(test=test, body=a.value, orelse=b.value)), s)]
+            if isinstance(a, ast.Return) and isinstance(b, ast.Return) and a.value is not None and b.value is not None:
+                return [ast.copy_location(ast.Return(value=ast.IfExp(test=test, body=a.value, orelse=b.value)), s)]
+        return [ast.copy_location(ast.If(test=test, body=body, orelse=orelse), s)]
+    if isinstance(s, ast.With):
+        if after and not _terminates(s.body):
+            raise Unstructurable('return inside a non-tail with')
+        if after:      # the with body always returns / raises: what follows is dead
+            after = []
+        return [ast.copy_location(ast.With(items=s.items, body=structure(s.body, [], k) or [ast.Pass()]), s)]
+    if isinstance(s, ast.Try):
+        if any(_has_return(x) for x in s.finalbody):
+            raise Unstructurable('return in finally')
+        in_body = any(_has_return(x) for x in s.body)
+        in_else = any(_has_return(x) for x in s.orelse)
+        in_handlers = [any(_has_return(x) for x in h.body) for h in s.handlers]
+        if not after:
+            return [ast.copy_location(ast.Try(body=structure(s.body, [], k) or [ast.Pass()],
+                                              handlers=[ast.copy_location(ast.ExceptHandler(type=h.type, name=h.name, body=structure(h.body, [], k) or [ast.Pass()]), h)
+                                                        for h in s.handlers],
+                                              orelse=structure(s.orelse, [], k), finalbody=s.finalbody), s)]
+        if in_body or s.finalbody:
+            raise Unstructurable('return inside a non-tail try body')
+        # returns only in handlers / else: the continuation moves into `else` when every handler terminates
+        if not all(_terminates(h.body) for h in s.handlers):
+            raise Unstructurable('a handler falls through next to one that returns')
+        handlers = [ast.copy_location(ast.ExceptHandler(type=h.type, name=h.name, body=structure(h.body, [], k) or [ast.Pass()]), h) for h in s.handlers]
+        orelse = structure(s.orelse, after, k)
+        return [ast.copy_location(ast.Try(body=s.body, handlers=handlers, orelse=orelse, finalbody=[]), s)]
+    raise Unstructurable('return inside %s' % type(s).__name__)
 
 
 class Helper(object):
@@ -85,22 +194,105 @@ class Helper(object):
             self.defaults[p] = d
             if not isinstance(d, ast.Constant):
                 self.ok = False
-        # recursion
         for n in ast.walk(fn):
             if isinstance(n, ast.Call) and ((isinstance(n.func, ast.Attribute) and n.func.attr == fn.name) or
                                             (isinstance(n.func, ast.Name) and n.func.id == fn.name)):
                 self.ok = False
-        self.returns = [n for s in body for n in ast.walk(s) if isinstance(n, ast.Return)]
-        self.value_returns = [r for r in self.returns if r.value is not None]
-        self.last_is_return = bool(body) and isinstance(body[-1], ast.Return)
-        self.single_expr = len(body) == 1 and isinstance(body[0], ast.Return) and body[0].value is not None
         self.stored = set()
         for s in body:
-            for n in ast.walk(s):
+            for n in _walk_own(s):
                 if isinstance(n, ast.Name) and isinstance(n.ctx, (ast.Store, ast.Del)):
                     self.stored.add(n.id)
-                if isinstance(n, ast.ExceptHandler) and n.name:
+                elif isinstance(n, ast.ExceptHandler) and n.name:
                     self.stored.add(n.name)
+                elif isinstance(n, ast.FunctionDef):
+                    self.stored.add(n.name)
+        # names bound inside nested defs / lambdas (their parameters and own locals)
+        self.nested = [n for s in body for n in ast.walk(s) if isinstance(n, _NESTED)]
+        self.nested_bound = set()
+        self.nested_free = set()
+        for nd_ in self.nested:
+            for x in ast.walk(nd_):
+                if isinstance(x, ast.arg):
+                    self.nested_bound.add(x.arg)
+                elif isinstance(x, ast.Name):
+                    (self.nested_bound if isinstance(x.ctx, ast.Store) else self.nested_free).add(x.id)
+        self.single_expr = None
+        self._single_expression()
+
+    def _single_expression(self):
+        """`return e`, possibly after `x = e1` definitions each used exactly once in what follows, with nothing impure
+        evaluated between the definition and the use"""
+        body = list(self.body)
+        if not body or not isinstance(body[-1], ast.Return) or body[-1].value is None or self.nested:
+            return
+        expr = copy.deepcopy(body[-1].value)
+        for s in reversed(body[:-1]):
+            if not (isinstance(s, ast.Assign) and len(s.targets) == 1 and isinstance(s.targets[0], ast.Name)):
+                return
+            name = s.targets[0].id
+            uses = [n for n in ast.walk(expr) if isinstance(n, ast.Name) and n.id == name]
+            if len(uses) != 1 or name in self.params:
+                return
+            # everything evaluated before the use must be pure: the use must be the first impure-relevant position
+            if not _first_evaluated(expr, uses[0]):
+                return
+            val = copy.deepcopy(s.value)
+
+            class R(ast.NodeTransformer):
+                def visit_Name(self_, n):
+                    return val if n is uses[0] else n
+            expr = R().visit(expr)
+        self.single_expr = expr
+
+
+def _first_evaluated(expr, target):
+    """is `target` evaluated before any call / subscript / operator of expr (left-to-right order), ignoring pure loads
+    and value formatting"""
+    order = []
+
+    def ev(n):
+        if n is target:
+            order.append('T')
+            return
+        if isinstance(n, (ast.Name, ast.Constant)):
+            return
+        if isinstance(n, ast.JoinedStr):
+            for v in n.values:
+                ev(v)
+            return
+        if isinstance(n, ast.FormattedValue):
+            ev(n.value)
+            return
+        if isinstance(n, ast.Attribute):
+            ev(n.value)
+            if not (isinstance(n.value, ast.Name)):
+                order.append('x')
+            return
+        if isinstance(n, ast.Call):
+            ev(n.func)
+            for a in n.args:
+                ev(a)
+            for kw in n.keywords:
+                ev(kw.value)
+            order.append('x')
+            return
+        if isinstance(n, (ast.Tuple, ast.List)):
+            for e in n.elts:
+                ev(e)
+            return
+        if isinstance(n, (ast.ListComp, ast.GeneratorExp, ast.SetComp, ast.DictComp, ast.Lambda, ast.IfExp, ast.BoolOp)):
+            if any(x is target for x in ast.walk(n)):
+                order.append('x')       # conditional / repeated evaluation: not a plain first use
+                order.append('T')
+            else:
+                order.append('x')
+            return
+        for ch in ast.iter_child_nodes(n):
+            ev(ch)
+        order.append('x')
+    ev(expr)
+    return 'T' in order and 'x' not in order[:order.index('T')]
 
 
 class _Rename(ast.NodeTransformer):
@@ -121,6 +313,12 @@ class _Rename(ast.NodeTransformer):
             n.name = self.mapping[n.name]
         return n
 
+    def visit_FunctionDef(self, n):
+        self.generic_visit(n)
+        if n.name in self.mapping:
+            n.name = self.mapping[n.name]
+        return n
+
 
 class Normaliser(object):
     def __init__(self, trees, pinned):
@@ -128,7 +326,8 @@ class Normaliser(object):
         self.trees = trees
         self.pinned = pinned
         self.counter = 0
-        self.inlined = []      # (helper qualname, caller, form)
+        self.inlined = []      # (helper name, caller, form)
+        self.skipped = []      # (helper name, caller, reason)
         self.helpers = {}
         self._collect()
 
@@ -142,7 +341,6 @@ class Normaliser(object):
                     for m in s.body:
                         if isinstance(m, ast.FunctionDef):
                             by_name.setdefault(m.name, []).append((mn, s, m))
-        # class hierarchy by base-class name (package-wide)
         bases = {}
         for mn, t in self.trees.items():
             for s in t.body:
@@ -212,45 +410,38 @@ class Normaliser(object):
     def _inline_stmt(self, stmt, h, binding, form, caller_fn, enclosing_trys):
         """returns list of statements replacing stmt, or None"""
         body = h.body
-        if form == 'expr':
-            if any(r is not body[-1] for r in h.value_returns) or any(r is not body[-1] for r in h.returns):
-                return None
-        elif form == 'assign':
-            if not h.last_is_return or len(h.returns) != 1 or body[-1].value is None:
-                return None
-        elif form != 'return':
-            return None
-        mentions = set()
-        for n in ast.walk(caller_fn):
-            if isinstance(n, ast.Name):
-                mentions.add(n.id)
-            elif isinstance(n, ast.arg):
-                mentions.add(n.arg)
-            elif isinstance(n, ast.ExceptHandler) and n.name:
-                mentions.add(n.name)
-        in_stmt = {n.id for n in ast.walk(stmt) if isinstance(n, ast.Name)}
         other_mentions = set()
-        for n in ast.walk(caller_fn):
-            if n is stmt:
-                continue
-        # names mentioned in the caller outside this statement
+        caller_stores = set()
+
         class Skip(ast.NodeVisitor):
             def generic_visit(self_, n):
                 if n is stmt:
                     return
                 if isinstance(n, ast.Name):
                     other_mentions.add(n.id)
+                    if isinstance(n.ctx, (ast.Store, ast.Del)):
+                        caller_stores.add(n.id)
                 elif isinstance(n, ast.arg):
                     other_mentions.add(n.arg)
                 elif isinstance(n, ast.ExceptHandler) and n.name:
                     other_mentions.add(n.name)
+                    caller_stores.add(n.name)
+                elif isinstance(n, ast.FunctionDef) and n is not caller_fn:
+                    other_mentions.add(n.name)
+                    caller_stores.add(n.name)
                 ast.NodeVisitor.generic_visit(self_, n)
         Skip().visit(caller_fn)
+        in_stmt = {n.id for n in ast.walk(stmt) if isinstance(n, ast.Name)}
+        if form == 'assign':
+            for t in ast.walk(stmt.targets[0]):
+                if isinstance(t, ast.Name):
+                    caller_stores.add(t.id)
         # returned-into-same-name exemption
         keep_same = set()
-        if form == 'assign':
+        last = body[-1] if body else None
+        if form == 'assign' and isinstance(last, ast.Return) and last.value is not None and sum(1 for s in body for n in _walk_own(s) if isinstance(n, ast.Return)) == 1:
             tgt = stmt.targets[0]
-            rv = body[-1].value
+            rv = last.value
             pairs = []
             if isinstance(tgt, ast.Name) and isinstance(rv, ast.Name):
                 pairs = [(tgt.id, rv.id)]
@@ -266,13 +457,19 @@ class Normaliser(object):
             if pairs and all(a == b for a, b in pairs):
                 keep_same = {a for a, b in pairs if a not in handler_reads and a not in h.params}
         mapping = {}
+        subst = {}
         pre = []
         locals_ = list(h.params) + sorted(h.stored - set(h.params))
         for L in locals_:
             if L in h.params:
                 arg = binding[L]
-                if isinstance(arg, ast.Name) and arg.id == L and L not in h.stored:
-                    continue
+                captured = L in h.nested_free
+                if L not in h.stored and L not in h.nested_bound:
+                    if isinstance(arg, ast.Name) and arg.id == L and not (captured and L in caller_stores):
+                        continue
+                    if isinstance(arg, ast.Constant) or (isinstance(arg, ast.Name) and not captured and arg.id not in h.stored):
+                        subst[L] = arg
+                        continue
                 new = self._fresh(L)
                 mapping[L] = new
                 pre.append(ast.copy_location(ast.Assign(targets=[ast.Name(id=new, ctx=ast.Store())], value=copy.deepcopy(arg)), stmt))
@@ -280,28 +477,35 @@ class Normaliser(object):
                 if L in keep_same or (L not in other_mentions and L not in in_stmt):
                     continue
                 mapping[L] = self._fresh(L)
-        new_body = [_Rename(mapping).visit(copy.deepcopy(s)) for s in body]
-        out = list(pre)
-        if form == 'return':
-            out.extend(new_body)
-            if not _terminates(new_body):
-                out.append(ast.copy_location(ast.Return(value=ast.Constant(value=None)), stmt))
+        if (set(mapping) | set(subst)) & h.nested_bound:
+            return None       # a nested def rebinds a name that has to be renamed
+        # a substituted caller name must not be captured by the helper's own locals
+        for L, a in subst.items():
+            if isinstance(a, ast.Name) and a.id in (h.stored - set(mapping)) and a.id != L:
+                return None
+        new_body = [_Rename(mapping, exprs=subst).visit(copy.deepcopy(s)) for s in body]
+
+        if form == 'expr':
+            def k(v, at):
+                return [] if _pure(v) else [ast.copy_location(ast.Expr(value=v), at)]
+            cont = []
         elif form == 'assign':
-            out.extend(new_body[:-1])
-            rv = new_body[-1].value
-            tgt = stmt.targets[0]
-            trivial = ast.dump(ast.parse(ast.unparse(tgt)).body[0].value) == ast.dump(ast.parse(ast.unparse(rv)).body[0].value) \
-                if not isinstance(rv, ast.Constant) else False
-            if not trivial:
-                out.append(ast.copy_location(ast.Assign(targets=[copy.deepcopy(t) for t in stmt.targets], value=rv), stmt))
+            def k(v, at):
+                return [ast.copy_location(ast.Assign(targets=[copy.deepcopy(t) for t in stmt.targets],
+                                                     value=v if v is not None else ast.Constant(value=None)), at)]
+            cont = k(None, stmt)
         else:
-            if new_body and isinstance(new_body[-1], ast.Return):
-                last = new_body.pop()
-                out.extend(new_body)
-                if last.value is not None and any(isinstance(n, (ast.Call, ast.Subscript, ast.Attribute, ast.BinOp, ast.Compare)) for n in ast.walk(last.value)):
-                    out.append(ast.copy_location(ast.Expr(value=last.value), last))
-            else:
-                out.extend(new_body)
+            def k(v, at):
+                return [ast.copy_location(ast.Return(value=v), at)]
+            cont = [] if _terminates(new_body) else k(ast.Constant(value=None), stmt)
+        try:
+            out = structure(new_body, cont, k)
+        except Unstructurable as ex:
+            self.skipped.append((h.fn.name, caller_fn.name, str(ex)))
+            return None
+        # drop `x = x`
+        out = [s for s in out if not (isinstance(s, ast.Assign) and len(s.targets) == 1 and _same_load(s.targets[0], s.value))]
+        out = pre + out
         if not out:
             out = [ast.copy_location(ast.Pass(), stmt)]
         for s in out:
@@ -316,32 +520,75 @@ class Normaliser(object):
             def visit_FunctionDef(self_, n):
                 return n       # nested defs are handled as their own bodies
 
-            visit_Lambda = visit_FunctionDef
-
             def visit_Call(self_, c):
                 self_.generic_visit(c)
                 m = norm._match(c, mn, cls)
                 if m is None:
                     return c
                 h, binding = m
-                if not h.single_expr:
+                if h.single_expr is None:
                     return c
                 if not all(isinstance(a, (ast.Name, ast.Constant)) for a in binding.values()):
                     return c
-                # comprehension variables inside the helper expression must not capture argument names
-                inner = {n.id for n in ast.walk(h.body[0].value) if isinstance(n, ast.Name) and isinstance(n.ctx, ast.Store)}
+                inner = {n.id for n in ast.walk(h.single_expr) if isinstance(n, ast.Name) and isinstance(n.ctx, ast.Store)}
                 if inner & {a.id for a in binding.values() if isinstance(a, ast.Name)}:
                     return c
-                e = _Rename({}, exprs=binding).visit(copy.deepcopy(h.body[0].value))
+                if h.stored & {a.id for a in binding.values() if isinstance(a, ast.Name)}:
+                    return c
+                e = _Rename({}, exprs=binding).visit(copy.deepcopy(h.single_expr))
                 norm.inlined.append((h.fn.name, caller_name, 'expression'))
                 norm.changed = True
                 return ast.copy_location(e, c)
         return T().visit(node)
 
+    # ------------------------------------------------------------------ hoisting a nested helper call out of a simple statement
+    def _hoist(self, s, mn, cls):
+        """`... h(args) ...` -> (`tmp = h(args)`, `... tmp ...`) when h(args) is the first thing with an effect that the
+        statement evaluates; returns (assign stmt, rewritten stmt) or None"""
+        if isinstance(s, (ast.Expr, ast.Return)):
+            root = s.value
+        elif isinstance(s, ast.Assign):
+            root = s.value
+        elif isinstance(s, ast.If):
+            root = s.test
+        else:
+            return None
+        if root is None:
+            return None
+        cands = [n for n in ast.walk(root) if isinstance(n, ast.Call) and n is not root or (isinstance(s, ast.If) and n is root and isinstance(n, ast.Call))]
+        for c in cands:
+            m = self._match(c, mn, cls)
+            if m is None:
+                continue
+            h, binding = m
+            if h.single_expr is not None and all(isinstance(a, (ast.Name, ast.Constant)) for a in binding.values()):
+                continue          # expression inlining handles it better
+            if not _first_evaluated(root, c):
+                continue
+            tmp = self._fresh('r')
+            assign = ast.copy_location(ast.Assign(targets=[ast.Name(id=tmp, ctx=ast.Store())], value=c), s)
+
+            class R(ast.NodeTransformer):
+                def visit_Call(self_, n):
+                    if n is c:
+                        return ast.copy_location(ast.Name(id=tmp, ctx=ast.Load()), n)
+                    self_.generic_visit(n)
+                    return n
+            s2 = copy.copy(s)
+            if isinstance(s, ast.If):
+                s2.test = R().visit(s.test)
+            else:
+                s2.value = R().visit(s.value)
+            ast.fix_missing_locations(assign)
+            return assign, s2
+        return None
+
     # ------------------------------------------------------------------ driver
     def _do_body(self, stmts, mn, cls, caller_fn, trys):
         out = []
-        for s in stmts:
+        queue = list(stmts)
+        while queue:
+            s = queue.pop(0)
             rep = None
             form = None
             call = None
@@ -351,11 +598,10 @@ class Normaliser(object):
                 form, call = 'assign', s.value
             elif isinstance(s, ast.Return) and isinstance(s.value, ast.Call):
                 form, call = 'return', s.value
-            if call is not None:
+            if call is not None and caller_fn is not None:
                 m = self._match(call, mn, cls)
                 if m is not None and caller_fn is not m[0].fn:
                     h, binding = m
-                    # arguments themselves must not contain helper calls needing statement inlining: fine, they are kept as expressions
                     rep = self._inline_stmt(s, h, binding, form, caller_fn, trys)
                     if rep is not None:
                         self.inlined.append((h.fn.name, caller_fn.name, form))
@@ -363,6 +609,12 @@ class Normaliser(object):
             if rep is not None:
                 out.extend(rep)
                 continue
+            if caller_fn is not None and isinstance(s, (ast.Expr, ast.Return, ast.Assign, ast.If)):
+                hz = self._hoist(s, mn, cls)
+                if hz is not None:
+                    queue[0:0] = [hz[0], hz[1]]
+                    self.changed = True
+                    continue
             # recurse into blocks
             if isinstance(s, (ast.FunctionDef, ast.AsyncFunctionDef)):
                 s.body = self._do_body(s.body, mn, cls, s if caller_fn is None else caller_fn, [])
@@ -379,21 +631,21 @@ class Normaliser(object):
                 for hd in s.handlers:
                     hd.body = self._do_body(hd.body, mn, cls, caller_fn, trys)
             # expression-level helpers in the statement's own expressions (not in nested blocks: already visited)
+            cname = caller_fn.name if caller_fn is not None else '<module>'
             for fld, val in ast.iter_fields(s):
                 if fld in ('body', 'orelse', 'finalbody', 'handlers'):
                     continue
                 if isinstance(val, ast.AST):
-                    setattr(s, fld, self._inline_exprs(val, mn, cls, caller_fn.name if caller_fn is not None else '<module>'))
+                    setattr(s, fld, self._inline_exprs(val, mn, cls, cname))
                 elif isinstance(val, list):
-                    setattr(s, fld, [self._inline_exprs(v, mn, cls, caller_fn.name if caller_fn is not None else '<module>')
-                                     if isinstance(v, ast.AST) else v for v in val])
+                    setattr(s, fld, [self._inline_exprs(v, mn, cls, cname) if isinstance(v, ast.AST) else v for v in val])
             out.append(s)
         return out
 
     def run(self):
         if not self.helpers:
             return self
-        for _ in range(6):
+        for _ in range(8):
             self.changed = False
             for mn, t in self.trees.items():
                 for s in t.body:
@@ -441,6 +693,14 @@ class Normaliser(object):
                 if not owner:
                     owner.append(ast.Pass())
                 self.removed.append(name)
+
+
+def _same_load(t, v):
+    if isinstance(t, ast.Name) and isinstance(v, ast.Name):
+        return t.id == v.id
+    if isinstance(t, ast.Tuple) and isinstance(v, ast.Tuple) and len(t.elts) == len(v.elts):
+        return all(_same_load(a, b) for a, b in zip(t.elts, v.elts))
+    return False
 
 
 def normalise(trees):
